@@ -46,6 +46,7 @@ MUT_KINDS = ["arch", "param", "act", "rl_hp"]
 # keys of the checkpoint dict that `load_checkpoint` also sets as attributes: file metadata, not agent state
 FILE_METADATA = {"agilerl_version", "wrapper_cls", "wrapper_init_dict", "wrapper_attrs"}
 LEARN_STEPS = 3
+torch.set_num_threads(1)   # tiny networks: one thread is fastest and keeps reduction order fixed
 VID0 = 10_000_000          # value ids handed to the model by the harness (never collide with addresses)
 
 
@@ -63,12 +64,17 @@ def inner_of(agent):
     return agent.agent if isinstance(agent, AgentWrapper) else agent
 
 
+class Groups(OrderedDict):
+    refs: list = []
+
+
 def measure(agent) -> "OrderedDict[str, dict]":
-    """group -> {'kind': model token, 'parts': [cells, ...]}; a network group has two parts when the
-    module holds tensors its state_dict() does not list: [listed, not listed]"""
+    """group -> {'kind': model token, 'parts': [cells, ...]}; a network group has two parts when
+    some of its layers hold plain tensors in place of parameters (hook-built targets, detached encoder
+    copies), which no state_dict() lists: [ordinary tensors, swapped-in tensors]"""
     inner = inner_of(agent)
     raw = walker.agent_groups(inner)
-    out: "OrderedDict[str, dict]" = OrderedDict()
+    out = Groups()
     for name, g in raw.items():
         if name.startswith("attr:") and name[5:] in FILE_METADATA:
             continue
@@ -76,17 +82,43 @@ def measure(agent) -> "OrderedDict[str, dict]":
             attr = name[4:]
             obj = getattr(inner, attr)
             mods = obj if isinstance(obj, list) else [obj]
-            listed = set()
+            swapped = set()
             for mi, m in enumerate(mods):
                 m = getattr(m, "_orig_mod", m)
-                for key in m.state_dict().keys():
-                    listed.add(f"{attr}[{mi}].{key}")
-            sd = {c: pv for c, pv in g["cells"].items() if pv[0] in listed}
-            det = {c: pv for c, pv in g["cells"].items() if pv[0] not in listed}
+                listed = set(m.state_dict().keys())
+                for prefix, sub in m.named_modules():
+                    # torch's own layers hold tensors only as parameters / buffers: a plain tensor
+                    # attribute there was swapped in for a parameter (TensorDict.to_module)
+                    if not type(sub).__module__.startswith("torch.nn"):
+                        continue
+                    for n, v in vars(sub).items():
+                        key = f"{prefix}.{n}" if prefix else n
+                        if isinstance(v, torch.Tensor) and key not in listed:
+                            swapped.add(f"{attr}[{mi}].{key}")
+            sd = {c: pv for c, pv in g["cells"].items() if pv[0] not in swapped}
+            det = {c: pv for c, pv in g["cells"].items() if pv[0] in swapped}
             parts = [sd, det] if det else ([sd] if sd else [])
             out[name] = {"kind": "net", "parts": parts, "detached": bool(det)}
         else:
             out[name] = {"kind": g["kind"], "parts": [g["cells"]] if g["cells"] else [], "detached": False}
+    # an attribute that is a reference into a network / optimizer (the bandits' `exp_layer` is the
+    # actor's output layer) owns nothing itself: record the reference, keep the cells with the owner
+    owner = {}
+    for name, g in out.items():
+        if g["kind"] in ("net", "opt"):
+            for part in g["parts"]:
+                for c in part:
+                    owner[c] = name
+    refs = set()
+    for name, g in out.items():
+        if g["kind"] in ("net", "opt"):
+            continue
+        for part in g["parts"]:
+            for c in [c for c in part if c in owner]:
+                refs.add((name, owner[c]))
+                del part[c]
+        g["parts"] = [p for p in g["parts"] if p]
+    out.refs = sorted(refs)
     if inner is not agent:                                   # AgentWrapper: its own state
         from agilerl.algorithms.core.base import EvolvableAlgorithm
         attrs = EvolvableAlgorithm.inspect_attributes(agent)
@@ -172,6 +204,7 @@ def plain_state(agent) -> dict:
             mods = obj if isinstance(obj, list) else [obj]
             out["init_dict:" + k] = canon([getattr(m, "_orig_mod", m).init_dict for m in mods])
             out["cls:" + k] = canon([type(getattr(m, "_orig_mod", m)).__name__ for m in mods])
+            out["structure:" + k] = [repr(getattr(m, "_orig_mod", m)) for m in mods]   # layers, sizes, activations
     if inner is not agent:
         out["wrapper"] = type(agent).__name__
         for k, v in EvolvableAlgorithm.inspect_attributes(agent).items():
@@ -189,12 +222,17 @@ def compare(a, b, what: str, groups_a=None, groups_b=None) -> list[str]:
     va, vb = values(ga), values(gb)
     if list(va) != list(vb):
         out.append(f"{what}: attribute sets differ: {sorted(set(va) ^ set(vb))}")
+    ra, rb = getattr(ga, "refs", []), getattr(gb, "refs", [])
+    if ra != rb:
+        out.append(f"{what}: attributes that refer into the agent's own networks: {ra} in the original, {rb} "
+                   f"in the restored agent (a restored reference points to a detached copy)")
     for n in va:
         if n not in vb:
             continue
         if len(va[n]) != len(vb[n]):
-            out.append(f"{what}: {n} has a different layout (tensors outside the state dict: "
-                       f"{ga[n]['detached']} vs {gb[n]['detached']})")
+            if ra == rb:
+                out.append(f"{what}: {n} has a different layout (detached tensors: "
+                           f"{ga[n]['detached']} vs {gb[n]['detached']}; own cells: {len(va[n])} vs {len(vb[n])})")
             continue
         for c, (x, y) in enumerate(zip(va[n], vb[n])):
             if x != y:
@@ -209,7 +247,7 @@ def compare(a, b, what: str, groups_a=None, groups_b=None) -> list[str]:
 def part_label(g, c) -> str:
     if g["kind"] != "net" or not g["detached"]:
         return ""
-    return " [tensors listed by state_dict()]" if c == 0 else " [tensors NOT listed by state_dict()]"
+    return " [parameters / buffers]" if c == 0 else " [detached tensors that no state_dict() lists]"
 
 
 def short(x) -> str:
@@ -296,21 +334,21 @@ class Case:
                     if x != y:
                         self.lines.append(f"heap write 0 {k} {c} {self.fresh()}")
 
-    def run(self, fault=None) -> dict:
+    def run(self) -> dict:
         A = self.A
         res = {"problems": self.problems, "tags": self.tags, "diff": None, "impl": [], "model": [],
                "unrepaired_match": None, "names": []}
         with warnings.catch_warnings():
             warnings.simplefilter("ignore")
             try:
-                self._run(res, fault)
+                self._run(res)
             except InfraError:
                 raise
             except Exception as e:
                 self.problems.append(f"raised {type(e).__name__}: {str(e)[:300]}")
         return res
 
-    def _run(self, res, fault):
+    def _run(self, res):
         A = self.A
         agent = self.build(self.seed)
         g = measure(agent)
@@ -373,8 +411,6 @@ class Case:
             A.seed_all(self.seed * 13 + 5)
             other.load_checkpoint(path)
             self.lines.append("ckpt loadinto 0 2")
-            if fault == "late-load":
-                pass
             self._after_loads(res, agent, new, other, g0, v_at_save, p_at_save, names, idx, det_cells, path)
 
     def _after_loads(self, res, agent, new, other, g0, v_at_save, p_at_save, names, idx, det_cells, path):
@@ -421,7 +457,7 @@ class Case:
         if self.problems:
             return
         # greedy actions
-        obs = A.sample_obs(agent, self.algo, self.family, 4, seed=self.seed + 17)
+        obs = A.sample_obs(agent, self.algo, self.family, 16, seed=self.seed + 17)
         acts = [A.greedy_action(x, self.algo, copy.deepcopy(obs), torch_seed=7) for x in (agent, new, other)]
         from c01 import same_value
         if not same_value(acts[0], acts[1]):
@@ -495,7 +531,7 @@ def case_list(chk: Check):
         cases.append((c["algo"], c["family"], c.get("share"), c.get("wrapper"), c["seed"], c["ops"]))
     quick = chk.tier == "quick"
     fams = ["vector"] if quick else ["vector", "image", "dict", "discrete"]
-    reps = 1 if quick else 2
+    reps = 2
     length = 4 if quick else 9
     for algo in A.ALGOS:
         for fam in fams:
@@ -510,7 +546,7 @@ def case_list(chk: Check):
     # AgentWrapper variants (RSNorm supports the off-policy single-agent algorithms)
     wrapped = ["DQN", "DDPG"] if quick else ["DQN", "DDPG", "TD3", "RainbowDQN", "CQN"]
     for algo in wrapped:
-        ops = [o for o in gen_history(rng, length, algo, "RSNorm") if o[0] != "mutate"] + [["act", rng.randrange(1000)]]
+        ops = gen_history(rng, length, algo, "RSNorm") + [["act", rng.randrange(1000)]]
         cases.append((algo, "vector", None, "RSNorm", rng.randrange(1 << 20), ops))
     if quick:       # one random non-vector family per run
         for _ in range(2):
@@ -521,10 +557,10 @@ def case_list(chk: Check):
     return cases
 
 
-def run_case(chk, case, fault=None):
+def run_case(chk, case):
     algo, fam, share, wrapper, seed, ops = case
     c = Case(chk, algo, fam, share, wrapper, seed, ops)
-    res = c.run(fault)
+    res = c.run()
     gc.collect()
     return res
 
@@ -674,6 +710,17 @@ def selftest(chk: Check) -> None:
     finally:
         base.EvolvableAlgorithm.load_checkpoint = orig_lc
         base.EvolvableAlgorithm.load = orig_load
+    # 5. detached tensors (critic's copy of the shared encoder) not written back
+    if hasattr(base, "load_detached_tensors"):
+        orig_ldt = base.load_detached_tensors
+        base.load_detached_tensors = lambda module, detached: None
+        case = ("PPO", "vector", True, None, 6, [["learn", 1], ["learn", 2]])
+        try:
+            if not run_case(chk, case)["problems"]:
+                raise InfraError("C07 self-test: seeded fault 'detached tensors not restored' was not noticed")
+            caught.append("detached tensors not restored")
+        finally:
+            base.load_detached_tensors = orig_ldt
     chk.notes.append("self-test: detected " + "; ".join(caught))
 
 
